@@ -370,6 +370,8 @@ func main() {
 		cmdDispatch(os.Args[2:])
 	case "build":
 		cmdBuild(os.Args[2:])
+	case "complete":
+		cmdComplete(os.Args[2:])
 	default:
 		fmt.Fprintln(os.Stderr, "unknown subcommand", os.Args[1])
 		os.Exit(2)
